@@ -145,12 +145,22 @@ TUndo ==
 (* an injected storage failure inside the undo transaction: nothing changed *)
 TUndoFail == IsEvent("Undo") /\ E.res = "injected" /\ PostNow(E.r) /\ UNCHANGED vars
 
+(* expire_tasks: the operations appended are exactly the deletions the         *)
+(* specification prescribes                                                   *)
+TExpire ==
+  /\ IsEvent("Expire") /\ E.res = "ok" /\ JOpsOK(E.post.ops)
+  /\ LET new == JOps(E.post.ops)
+         n == Len(db[E.r].ops)
+     IN /\ Len(new) >= n
+        /\ Expire(E.r, SubSeq(new, n + 1, Len(new)))
+  /\ Post(E.r)
+
 TRebuildLocal == IsEvent("Rebuild") /\ Rebuild(E.r, E.renumber) /\ Post(E.r)
 
 TNext ==
   \/ TReset \/ TEdit \/ TStart \/ TGetSnapshot \/ TPull \/ TPush \/ TPushLost
   \/ TSnapshot \/ TSnapshotLost \/ TFault \/ TCommit \/ TRebuild \/ TDone \/ TObserve
-  \/ TEditFail \/ TInstallWS \/ TGetUndo \/ TUndo \/ TUndoFail \/ TRebuildLocal
+  \/ TEditFail \/ TInstallWS \/ TGetUndo \/ TUndo \/ TUndoFail \/ TRebuildLocal \/ TExpire
 
 TInit == Init /\ l = 1
 TSpec == TInit /\ [][TNext]_tvars
